@@ -12,6 +12,7 @@ mkdir -p "$V"; rsync -a --exclude bin --exclude work --exclude replays --exclude
 miss=0; n=0
 for d in "$V"/seeded/$GLOB/; do
   id=$(basename "$d"); prop=${id%%-*}; n=$((n+1))
+  cw=$(jq -r '.check_with // empty' "$d/meta.json" 2>/dev/null); [ -n "$cw" ] && prop=$cw
   if ! git -C "$WT" apply "$d/patch.diff" 2>/dev/null; then echo "$id :: patch does not apply"; miss=$((miss+1)); continue; fi
   (cd "$V" && MUX_REPO="$WT" ./run.sh "$prop" "$TIER" > "$V/m.log" 2>&1); rc=$?
   git -C "$WT" checkout -q -- . ; git -C "$WT" clean -fdq
